@@ -407,11 +407,13 @@ impl Issuer {
         }
 
         let mut rng = rand::thread_rng();
-        let sd_array = updated_claims
+        // there is no top-level digest list when only nested claims are disclosable
+        if let Some(sd_array) = updated_claims
             .get_mut("_sd")
             .and_then(Value::as_array_mut)
-            .ok_or(Error::InvalidPathPointer)?;
-        sd_array.shuffle(&mut rng);
+        {
+            sd_array.shuffle(&mut rng);
+        }
 
         if !disclosures.is_empty() {
             let algorithm = disclosures[0].get_algorithm().to_string();
